@@ -1,11 +1,13 @@
 //! Correspondence harness for the Svc cluster: fuel-core-services' SeqLock (C42) and
 //! ServiceRunner (C41) driven through generated schedules.
+mod c41;
 mod c42;
 
 use vcommon::{Rng, T};
 
 fn gen(prop: &str, rng: &mut Rng, n: u64, tier: &str) -> Vec<T> {
     match prop {
+        "C41" => c41::gen(rng, n, tier),
         "C42" => c42::gen(rng, n, tier),
         p => panic!("unknown property {p}"),
     }
@@ -13,6 +15,7 @@ fn gen(prop: &str, rng: &mut Rng, n: u64, tier: &str) -> Vec<T> {
 
 fn run(prop: &str, input: &T) -> T {
     match prop {
+        "C41" => c41::run(input),
         "C42" => c42::run(input),
         p => panic!("unknown property {p}"),
     }
